@@ -33,6 +33,7 @@ ASSUMPTIONS = [
     "sequential outcomes are computed with the real code on shallow copies of the stores",
 ]
 MIN_NONTRIVIAL_FRACTION = 0.3
+RULE += ' Added after the seeded rounds: `prelog`: the first store may start with 997..1001 zero-cost spends already in its audit log (part of the initial state of the run and of the sequential reference); a self-deadlock in the single-threaded reference is reported as such.'
 EXHAUSTIVE_NOTE = {"quick": "8 fixed scenarios x all schedules with <= 1 preemption (every yield point x every other thread)",
                    "thorough": "8 fixed scenarios x all schedules with <= 2 preemptions"}
 
@@ -58,7 +59,7 @@ def _case(draw):
     op = st.one_of(*ops).map(list)
     threads = [draw(st.lists(op, min_size=1, max_size=3 if n_threads == 2 else 2)) for _ in range(n_threads)]
     schedule = draw(st.lists(st.integers(0, 5), max_size=120))
-    return {"stores": stores, "threads": threads, "schedule": schedule}
+    return {"stores": stores, "threads": threads, "schedule": schedule, "prelog": draw(st.sampled_from([0] * 28 + [998, 999, 1000, 1001]))}
 
 
 def strategy(tier):
@@ -84,6 +85,10 @@ def enumerate_cases(tier):
     A schedule entry selects among *runnable* threads by index, so 'stay on the current thread' needs the current thread's index; the
     enumerator uses the special decision form handled in judge(): {"preempt": [[step, thread], ...]}."""
     maxp = 2 if tier == "thorough" else 1
+    for prelog in (997, 998, 999, 1000, 1001):
+        for sc in _FIXED[:2]:
+            for first in (0, 1):
+                yield dict(sc, plan={"first": first, "preempt": [[7, 1 - first]]}, prelog=prelog)
     for sc in _FIXED:
         n = len(sc["threads"])
         horizon = 60 if tier == "thorough" else 40
@@ -108,7 +113,12 @@ from pbt.instruments.sched import PlanScheduler as _PlanScheduler  # noqa: E402
 
 
 def _mk_stores(case, ATP_Store):
-    return [ATP_Store(budget=c["budget"], gtp_budget=c["gtp"], nadh_reserve=c["nadh"], max_debt=c["max_debt"], silent=True) for c in case["stores"]]
+    stores = [ATP_Store(budget=c["budget"], gtp_budget=c["gtp"], nadh_reserve=c["nadh"], max_debt=c["max_debt"], silent=True) for c in case["stores"]]
+    # a store with a long past: that many zero-cost spends are already in its audit log (bounded at 1000 entries) when the threads start;
+    # part of the initial state, so the sequential reference starts from it too
+    for _k in range(case.get("prelog") or 0):
+        stores[0].consume(0, "past")
+    return stores
 
 
 def _snap(stores, ET):
@@ -202,7 +212,14 @@ def judge(case):
 def _judge(case, out, met):
     ET = met.EnergyType
     et = [ET.ATP, ET.GTP, ET.NADH]
-    stores = _mk_stores(case, met.ATP_Store)
+    try:
+        stores = _mk_stores(case, met.ATP_Store)
+    except SelfDeadlock as e:
+        out.nontrivial = True
+        out.fail("deadlock:self", "a spend on a store with a long transaction log re-acquired the lock it holds: %s" % e, {"prelog": case.get("prelog")})
+        return
+    if case.get("prelog"):
+        out.label("prelog")
     if len(case["stores"]) == 1 and any(op[0] == "transfer" for ops in case["threads"] for op in ops):
         raise HarnessError("transfer needs two stores")
 
@@ -262,7 +279,13 @@ def _judge(case, out, met):
         out.fail("negative-balance-observed", "a balance was negative at a scheduling point: %s" % s.probe_failures[0], d)
         return
     observed = (tuple(tuple(t.results) for t in s.threads), _snap(stores, ET))
-    allowed = _sequential_outcomes(case, met.ATP_Store, ET)
+    try:
+        allowed = _sequential_outcomes(case, met.ATP_Store, ET)
+    except SelfDeadlock as e:
+        # the reference runs the real code one call after another: if even that re-acquires a held lock, no schedule is needed for the hang
+        out.nontrivial = True
+        out.fail("deadlock:self", "a single-threaded sequence of the same calls re-acquired the lock it holds: %s" % e, d)
+        return
     d["observed"] = observed
     if observed not in allowed:
         results, final = observed
